@@ -695,3 +695,15 @@ def bounded(opts):
                 evaluations=evals, distinct_nontrivial=nontrivial, violations=viol, samples=samples,
                 wall_s=round(time.time() - t0, 2),
                 note="run-time evaluation of the same rule on the real functions; labelled bounded, not counted as proved")
+
+
+
+# every consumer of the binning gets the configured closed side: which catalogs the measurements bin with (edges, closed) and
+# which they leave unbinned (the C01 wiring unit on autocorrelate / crosscorrelate, run here as well)
+def _register_shared():
+    from . import C01 as _C01
+    unit(P, "correlate.wiring", fuc=["yaw.correlation.measurements:autocorrelate", "yaw.correlation.measurements:crosscorrelate"],
+         cases=[dict(fn="auto", rr=True), dict(fn="auto", rr=False), dict(fn="cross", rand="ref"), dict(fn="cross", rand="unk"), dict(fn="cross", rand="both")])(_C01.u_wiring)
+
+
+_register_shared()
